@@ -279,6 +279,18 @@ func C09(c *core.Ctx) error {
 		gm := gm
 		add("go.mod with "+name, false, func(root core.M, pcs, ics []core.M, files map[string]string, s *c09scn) { s.gomod = gm })
 	}
+	// the go.mod that governs an OUTPUT directory (a nested module) in every module-less but syntactically valid form
+	for _, gm := range []struct{ name, text string }{{"empty", ""}, {"comment only", "// nothing here\n"}, {"go directive only", "go 1.23\n"}, {"require only", "require github.com/stretchr/testify v1.10.0\n"}} {
+		gm := gm
+		for pos := 0; pos < 3; pos++ {
+			pos := pos
+			add(fmt.Sprintf("output directory inside a nested module whose go.mod has no module directive (%s) (package %s)", gm.name, pk[pos]), true, func(root core.M, pcs, ics []core.M, files map[string]string, s *c09scn) {
+				pcs[pos]["dir"] = "gen/mocks_" + pk[pos]
+				pcs[pos]["pkgname"] = "mocks"
+				files["gen/go.mod"] = gm.text
+			})
+		}
+	}
 	scns = append(scns, c09scn{id: "go.mod without a module directive", files: baseFiles(), cfg: func() core.M { r, _, _ := baseCfg(); return r }(), gomod: "go 1.23\n", invalid: true})
 
 	// thorough: pairs of faults in two different packages (still a diagnostic, still no crash)
